@@ -164,9 +164,9 @@ def gen_fields(rng):
 
 
 def shards(tier, seed):
-    k = 3 if tier == "quick" else 120
+    k = 3 if tier == "quick" else 1500
     n = 8 if tier == "quick" else 16
-    return [dict(shard=i, nshards=n, seed=seed, samples=k, dgrams=60 if tier == "quick" else 4000) for i in range(n)]
+    return [dict(shard=i, nshards=n, seed=seed, samples=k, dgrams=60 if tier == "quick" else 40000) for i in range(n)]
 
 
 def run(spec, ctx):
